@@ -331,7 +331,11 @@ pub fn run(ctx: &Ctx, rep: &mut Report) {
                     (cand.clone(),).into_val(&env),
                     (stranger.clone(),).into_val(&env),
                     (cand.clone(), target.clone(), Symbol::new(&env, "f1"), a1.clone()).into_val(&env),
-                    (target.clone(), Symbol::new(&env, "f1"), a1).into_val(&env),
+                    (target.clone(), Symbol::new(&env, "f1"), a1.clone()).into_val(&env),
+                    // a list of signers: nobody, only the stranger, a candidate and the stranger
+                    (SVec::<Address>::new(&env), target.clone(), Symbol::new(&env, "f1"), a1.clone()).into_val(&env),
+                    (SVec::from_array(&env, [stranger.clone()]), target.clone(), Symbol::new(&env, "f1"), a1.clone()).into_val(&env),
+                    (SVec::from_array(&env, [cand.clone(), stranger.clone()]), target.clone(), Symbol::new(&env, "f1"), a1).into_val(&env),
                 ];
                 let n = u.try_unknown(&ops_c, &unknown_fns, &tuples, &Auth::AllBy(stranger.clone()));
                 rep.count("unknown-entry-point-tried");
